@@ -225,3 +225,79 @@ def ob_migrations_converge(kind: int, k: int, nolock: bool, e1: int, reruns: int
             if _schema(path) != got_schema or _book(path) != book:   # a further run changes nothing
                 return False
     return True
+
+
+# ------------------------------------------------------------------------------------------------ several migration packages
+# The DBOS runtime migrates one database with TWO sources: [server, dbos] (llama_agents/dbos/runtime.py).  A database that the plain
+# server store created (server migrations complete, dbos ones never applied) and that the DBOS runtime opens later is one of the
+# "earlier schema versions" of that deployment.
+
+h_idle_import_error = None
+try:
+    from vlib import h_idle as _h_idle
+
+    _h_idle.ensure_dbos_importable()
+    from llama_agents.dbos._store import SQLITE_MIGRATION_SOURCE as _DBOS_SOURCE
+except Exception as _e:  # noqa: BLE001
+    _DBOS_SOURCE = None
+    h_idle_import_error = repr(_e)
+
+_BOTH = [SQLITE_MIGRATION_SOURCE, _DBOS_SOURCE] if _DBOS_SOURCE is not None else None
+NDBOS = len(iter_migration_files(_DBOS_SOURCE[1])) if _DBOS_SOURCE is not None else 0
+
+
+def _migrate_both(path: str, sources) -> None:
+    conn = sqlite3.connect(path, timeout=30.0)
+    try:
+        _mig.run_migrations(conn, sources)
+        conn.commit()
+    finally:
+        conn.close()
+
+
+def _book_all(path: str):
+    conn = sqlite3.connect(path)
+    try:
+        return [tuple(r) for r in conn.execute("SELECT package, version FROM schema_migrations ORDER BY package, version").fetchall()]
+    finally:
+        conn.close()
+
+
+@obligation(quick=150, thorough=300,
+            partitions_quick=["kind <= 1", "kind == 2", "kind >= 3"],
+            what="two migration packages in one database, as the DBOS runtime runs them (sources = [server, dbos]): from a fresh file, from a "
+                 "server-only database at any server version (bookkept or legacy user_version, current or as-released files), or from a "
+                 "database where only the first j dbos migrations were applied — run_migrations(conn, [server, dbos]) ends with the schema "
+                 "and the bookkeeping rows of a fresh database migrated with both sources, and a re-run changes nothing",
+            bounds={"start": "fresh / server prefix k / legacy k / released prefix k / released legacy k, then dbos prefix j", "k": "0..NMIG", "j": "0..NDBOS"})
+def ob_two_sources(kind: int, k: int, j: int) -> bool:
+    """
+    pre: _BOTH is not None
+    pre: 0 <= kind <= 4 and 0 <= k and (kind != 0 or k == 0) and (k <= NMIG if kind <= 2 else k <= NREL) and 0 <= j <= NDBOS
+    pre: j == 0 or (kind != 0 and k == (NMIG if kind <= 2 else NREL))
+    post: _
+    """
+    kind = pick_int(kind, 0, 4)
+    k = pick_int(k, 0, max(NMIG, NREL))
+    j = pick_int(j, 0, NDBOS)
+    with TmpDir() as d:
+        ref = os.path.join(d, "ref.db")
+        sqlite3.connect(ref).close()
+        _migrate_both(ref, _BOTH)
+        want_schema, want_book = _schema(ref), _book_all(ref)
+        path = os.path.join(d, "s.db")
+        _prepare(path, kind, k, False)
+        if j > 0:
+            # an earlier dbos release: server complete, only the first j dbos files shipped
+            real = _mig.iter_migration_files
+            _mig.iter_migration_files = lambda pkg: real(pkg)[:j] if pkg == _DBOS_SOURCE[1] else real(pkg)
+            try:
+                _migrate_both(path, _BOTH)
+            finally:
+                _mig.iter_migration_files = real
+        _migrate_both(path, _BOTH)
+        got_schema, got_book = _schema(path), _book_all(path)
+        if got_schema != want_schema or got_book != want_book:
+            return False
+        _migrate_both(path, _BOTH)
+        return _schema(path) == got_schema and _book_all(path) == got_book
